@@ -125,3 +125,68 @@ pub fn scc_classes(n: usize, edges: &[(usize, usize)]) -> Vec<Vec<usize>> {
     out.sort();
     out
 }
+
+/// strongly connected components in linear time (iterative Tarjan, own code): the reference for graphs too large for the
+/// cubic closure above; the two references are compared with each other on every small graph by the C18 check
+pub fn scc_classes_linear(n: usize, edges: &[(usize, usize)]) -> Vec<Vec<usize>> {
+    let mut adj: Vec<Vec<usize>> = vec![vec![]; n];
+    for (s, d) in edges {
+        adj[*s].push(*d);
+    }
+    const NONE: usize = usize::MAX;
+    let mut index = vec![NONE; n];
+    let mut low = vec![0usize; n];
+    let mut on_stack = vec![false; n];
+    let mut stack: Vec<usize> = vec![];
+    let mut next = 0usize;
+    let mut out: Vec<Vec<usize>> = vec![];
+    for root in 0..n {
+        if index[root] != NONE {
+            continue;
+        }
+        // explicit call stack of (vertex, position in its adjacency list)
+        let mut calls: Vec<(usize, usize)> = vec![(root, 0)];
+        index[root] = next;
+        low[root] = next;
+        next += 1;
+        stack.push(root);
+        on_stack[root] = true;
+        while let Some((v, pos)) = calls.last().cloned() {
+            if pos < adj[v].len() {
+                calls.last_mut().unwrap().1 += 1;
+                let w = adj[v][pos];
+                if index[w] == NONE {
+                    index[w] = next;
+                    low[w] = next;
+                    next += 1;
+                    stack.push(w);
+                    on_stack[w] = true;
+                    calls.push((w, 0));
+                } else if on_stack[w] {
+                    low[v] = low[v].min(index[w]);
+                }
+            } else {
+                calls.pop();
+                if let Some((parent, _)) = calls.last() {
+                    let p = *parent;
+                    low[p] = low[p].min(low[v]);
+                }
+                if low[v] == index[v] {
+                    let mut class = vec![];
+                    loop {
+                        let w = stack.pop().unwrap();
+                        on_stack[w] = false;
+                        class.push(w);
+                        if w == v {
+                            break;
+                        }
+                    }
+                    class.sort();
+                    out.push(class);
+                }
+            }
+        }
+    }
+    out.sort();
+    out
+}
